@@ -128,6 +128,8 @@ class DecoratorManager(ABC):
         self.status: DecoratorManagerStatus = DecoratorManagerStatus.INIT
         self.startup_time = None
         self._decorators: list[Decorator] = []
+        # the decorators whose start() has been called (the last one might still be in it)
+        self._started: list[Decorator] = []
 
     def update_status(self, new_status: DecoratorManagerStatus) -> None:
         """Update the manager status."""
@@ -173,16 +175,17 @@ class DecoratorManager(ABC):
 
         self.startup_time = dt_now()
         self.update_status(DecoratorManagerStatus.RUNNING)
-        started = []
+        self._started = []
         for decorator in self._decorators:
             _LOGGER.debug("Starting decorator: %s", decorator)
+            self._started.append(decorator)
             try:
                 await decorator.start()
-                started.append(decorator)
             except Exception as err:
                 self.logger.exception("%s start failed: %s", self, err)
-                for started_dec in started:
+                for started_dec in self._started[:-1]:
                     await self._stop_decorator(started_dec)
+                self._started = []
                 self.startup_time = None
                 self.update_status(DecoratorManagerStatus.INVALID)
                 raise
@@ -199,8 +202,13 @@ class DecoratorManager(ABC):
             _LOGGER.warning("Stopping before starting for %s (status=%s)", self.name, self.status.value)
             return
 
+        #
+        # stop() can come while start() is still working through the decorators: only
+        # those it got to have anything to release
+        #
         _LOGGER.debug("Stopping all decorators %s", self)
-        for decorator in self._decorators:
+        started, self._started = self._started, []
+        for decorator in started:
             await self._stop_decorator(decorator)
 
         self.update_status(DecoratorManagerStatus.STOPPED)
